@@ -23,9 +23,9 @@ let () = run_protocol [
   "nugget", (function [cls; p1; p2; p3; dim; var; len; nug; resc; r] ->
       let g = cls_fn cls p1 p2 p3 dim var len nug resc in
       VT [VF (vario_nugget o (g Variogram) (gf r)); VF (cov_nugget o (g Covariance) (gf var) (gf nug) (gf r))] | _ -> failwith "arity");
-  "derive_user", (function [shape; dc; dr; dk; dg; var; nug; lr; f; x] ->
+  "derive_user", (function [shape; a; dc; dr; dk; dg; var; nug; lr; f; x] ->
       let d = { d_cor = gb dc; d_correlation = gb dr; d_covariance = gb dk; d_variogram = gb dg } in
-      vopt (derive o d (user_of o (gz shape) (gf var) (gf nug) (gf lr)) (gf var) (gf nug) (gf lr) (fn_of (iz f)) (gf x)) | _ -> failwith "arity");
+      vopt (derive o d (user_of o (gz shape) (gf a) (gf var) (gf nug) (gf lr)) (gf var) (gf nug) (gf lr) (fn_of (iz f)) (gf x)) | _ -> failwith "arity");
   "intscale", (function [cls; p1; lr] -> vopt (intscale_of o (gz cls) (gf p1) (gf lr)) | _ -> failwith "arity");
   "set_intscale", (function [cls; p1; resc; target] -> vopt (set_intscale_of o (gz cls) (gf p1) (gf resc) (gf target)) | _ -> failwith "arity");
   "tpl_var_factor", (function [len; resc; low; hurst] -> VF (tpl_var_factor o (gf len) (gf resc) (gf low) (gf hurst)) | _ -> failwith "arity");
